@@ -115,6 +115,8 @@ def cells(live=None, prefix="exactpack"):
     po = np.get_printoptions()
     out["numpy:printoptions"] = canon({k: (v if not callable(v) else "callable") for k, v in po.items() if k != "formatter"})
     for slot, obj in sorted((live or {}).items()):
+        if str(slot).startswith("_buf:"):      # the harness's own request buffers are not interpreter state of the library
+            continue
         d = getattr(obj, "__dict__", {})
         for an, av in sorted(d.items()):
             out["live:%s.%s" % (slot, an)] = canon(av)
